@@ -3,7 +3,9 @@
 function at runtime").
 
   simfault()  / simfault("site")    raises RuntimeError inside _decide_match when
-                                    the fault plan names (identity, line[, site])
+                                    the fault plan names (identity, line[, site]);
+                                    a site containing "chain" makes it a chained
+                                    exception (raise ... from cause)
   simfaultv() / simfaultv("site")   same, but raises inside _produce_value
   simprobe()  / simprobe("site")    records an evaluation event and calls the
                                     online monitor; always votes the default match
@@ -86,6 +88,12 @@ class SimFault(_OptLabel, MatchDecider):
             FaultState.monitor(cp, identity, line, site)
         if _planned(identity, line, site):
             FaultState.fired.append(("exc_match", identity, line, site))
+            if isinstance(site, str) and "chain" in site:
+                # an exception that itself has a cause (what `raise X from Y` inside a function produces)
+                try:
+                    int("not a number")
+                except ValueError as cause:
+                    raise RuntimeError(f"simfault at {identity!r} line {line} site {site!r}") from cause
             raise RuntimeError(f"simfault at {identity!r} line {line} site {site!r}")
         self.match = self.default_match()
 
